@@ -9,7 +9,8 @@ the writer and the reader.
   `C05_key_blind_partial`, `C05_order_blind_arrays`), on the abstraction used here: same
   properties, same data array, the same axes in the same order under the data, the same sizes and
   unlimitedness, the same metadata constructs (type, properties, data, bounds, climatology,
-  measure) spanning the same axes in the same order, the same cell methods in the same order.
+  measure) spanning the same axes in the same order, the same cell methods in the same order, the
+  same coordinate references (coordinates, conversion parameters, datum, domain ancillaries by term).
   netCDF names are *not* part of it (`strip`).
 * `WFField f`: the fields of the proved class (stage A) — what the writer accepts and what
   CF-netCDF can encode without loss.
@@ -25,6 +26,23 @@ def renCM (π : Key → Key) (cm : MCellMethod) : MCellMethod := { cm with axes 
 
 def InjOn (π : Key → Key) (l : List Key) : Prop := ∀ a ∈ l, ∀ b ∈ l, π a = π b → a = b
 
+/-- The same coordinate reference up to the keys of the constructs it names (`κ`): coordinates as a
+set, parameters and datum as dictionaries, `term → domain ancillary` as a dictionary.  The netCDF
+variable name and the reference's own key are not part of it. -/
+def RefEquiv (κ : Key → Key) (r r' : MRef) : Prop :=
+  r'.coords.Perm (r.coords.map κ) ∧ r'.params.Perm r.params ∧ r'.datum.Perm r.datum ∧
+  r'.terms.Perm (r.terms.map (fun tk => (tk.1, tk.2.map κ)))
+
+/-- Two lists related element by element. -/
+def Forall2 {α β} (R : α → β → Prop) : List α → List β → Prop
+  | [], [] => True
+  | a :: as, b :: bs => R a b ∧ Forall2 R as bs
+  | _, _ => False
+
+/-- The same coordinate references up to construct keys and order. -/
+def RefsEquiv (κ : Key → Key) (rs rs' : List (Key × MRef)) : Prop :=
+  ∃ l : List (Key × MRef), l.Perm rs' ∧ Forall2 (fun a b => RefEquiv κ a.2 b.2) rs l
+
 /-- `g` is `f` up to construct keys and insertion order. -/
 def Equiv (f g : MField) : Prop :=
   ∃ π κ : Key → Key,
@@ -34,7 +52,8 @@ def Equiv (f g : MField) : Prop :=
     (g.cons.map (renEntry id id)).Perm (f.cons.map (renEntry π κ)) ∧
     g.cms = f.cms.map (renCM π) ∧
     -- a cell-method axis that is not a domain axis (`area`, a standard name) stays what it is
-    (∀ cm ∈ f.cms, ∀ a ∈ cm.axes, a ∉ f.axisKeys → π a = a ∧ a ∉ g.axisKeys)
+    (∀ cm ∈ f.cms, ∀ a ∈ cm.axes, a ∉ f.axisKeys → π a = a ∧ a ∉ g.axisKeys) ∧
+    RefsEquiv κ f.refs g.refs
 
 /-- Every netCDF variable name of `g` that corresponds to a name set on `f` is that name. -/
 def NamesKept (κ : Key → Key) (f g : MField) : Prop :=
@@ -95,8 +114,135 @@ def WFField (f : MField) : Prop :=
   f.axisKeys.Nodup ∧ (f.cons.map Entry.key).Nodup ∧ f.dataAxes.Nodup ∧ (∀ a ∈ f.dataAxes, a ∈ f.axisKeys)
   ∧ (∀ e ∈ f.cons, WFEntry f e)
   ∧ (∀ ka ∈ f.axes, ka.1 ∉ f.dataAxes → ka.2.size = 1 ∧ ka.2.unlimited = false ∧ f.spanning ka.1 ≠ [])
+  -- stage A: no domain ancillaries, no coordinate references
+  ∧ (∀ e ∈ f.cons, e.con.ctype ≠ .dan) ∧ f.refs = []
 
 instance (f : MField) (e : Entry) : Decidable (WFEntry f e) := by unfold WFEntry; infer_instance
 instance (f : MField) : Decidable (WFField f) := by unfold WFField; infer_instance
+
+/-! ### The proved class, stage B: coordinate references and domain ancillaries -/
+
+/-- The coordinate constructs that CF associates with a grid mapping by their standard names
+(`cf_coordinate_reference_coordinates`). -/
+def inferredCoords (f : MField) (name : String) : List Key :=
+  ((Cfdm.Generated.coordRefCoordinates.lookup name).getD []).flatMap (fun n =>
+    ((f.cons.filter Entry.isCoordinate).filter (fun e => stdName e.con.props == some n)).map Entry.key)
+
+def gmOnly (f : MField) : List (Key × MRef) := f.refs.filter (fun kr => kr.2.isGM)
+def ftOnly (f : MField) : List (Key × MRef) := f.refs.filter (fun kr => kr.2.isFT)
+
+/-- The only coordinate of a reference, when it is a coordinate construct of the field. -/
+def ownerOf (f : MField) (r : MRef) : Option Entry :=
+  match r.coords with
+  | [k] => f.coord? k
+  | _ => none
+
+/-- What the single grid mapping of a field (short form of the `grid_mapping` attribute) demands. -/
+def singleGM (f : MField) (P : Key × MRef → Prop) : Prop :=
+  match gmOnly f with
+  | [g] => P g
+  | _ => True
+
+instance (f : MField) (P : Key × MRef → Prop) [DecidablePred P] : Decidable (singleGM f P) := by
+  unfold singleGM; split <;> infer_instance
+
+/-- A parametric vertical coordinate reference that CF-netCDF can hold: its only coordinate is the
+1-d coordinate construct of a data axis that has its standard name (and its computed standard
+name, if any); every term names a domain ancillary; its datum is the one the grid mappings give it
+back on reading. -/
+def WFFT (f : MField) (r : MRef) : Prop :=
+  r.gmName = none ∧ r.ncvar = none
+  ∧ (r.params.map (·.1)).Nodup ∧ (∀ p ∈ r.params, p.1 = "standard_name" ∨ p.1 = "computed_standard_name")
+  ∧ (match ownerOf f r with
+     | some o => stdName o.con.props = r.sn ∧ o.con.props.lookup "computed_standard_name" = r.csn
+                 ∧ o.axes.length = 1 ∧ (∀ z ∈ o.axes, z ∈ f.dataAxes) ∧ isClim f o = false
+     | none => False)
+  ∧ r.terms ≠ [] ∧ (r.terms.map (·.1)).Nodup ∧ (∀ tk ∈ r.terms, (tk.2.bind f.dan?).isSome = true)
+  -- the datum: that of exactly one grid mapping, or none; with a single grid mapping (short form
+  -- of the attribute) the reader gives every vertical reference that grid mapping's datum
+  ∧ (r.datum ≠ [] → ((gmOnly f).filter (fun g => datumEq g.2.datum r.datum)).length = 1)
+  ∧ singleGM f (fun g => g.2.datum = r.datum)
+
+/-- A grid mapping that CF-netCDF can hold. -/
+def WFGM (f : MField) (r : MRef) : Prop :=
+  r.sn = none ∧ r.terms = []
+  ∧ (∀ k ∈ r.coords, (f.coord? k).isSome = true) ∧ r.coords.Nodup
+  -- datum and conversion parameters are told apart by their names
+  ∧ (∀ p ∈ r.datum, isDatumParam p = true) ∧ (∀ p ∈ r.params, isDatumParam p = false)
+  -- a single grid mapping is written in the short form: its coordinates are inferred
+  ∧ singleGM f (fun _ => r.coords.Perm (inferredCoords f (r.gmName.getD "")))
+  -- one of several grid mappings names its coordinates (with none the reader would infer them)
+  ∧ ((gmOnly f).length ≠ 1 → r.coords ≠ [])
+
+instance (f : MField) (r : MRef) : Decidable (WFFT f r) := by
+  unfold WFFT
+  cases ownerOf f r <;> infer_instance
+
+instance (f : MField) (r : MRef) : Decidable (WFGM f r) := by
+  unfold WFGM; infer_instance
+
+/-- The terms of all coordinate references. -/
+def allTerms (f : MField) : List (String × Option Key) := f.refs.flatMap (fun kr => kr.2.terms)
+
+/-- The bounds of a domain ancillary have a place in the dataset: the parametric coordinate of the
+formula-terms reference that names the domain ancillary has bounds, and the domain ancillary spans
+the vertical axis (CF 7.1; otherwise they are lost — finding
+`domain-ancillary-bounds-not-named-by-bounds-formula-terms`). -/
+def boundsEncodable (f : MField) (e : Entry) : Bool :=
+  (ftOnly f).all (fun kr =>
+    !kr.2.terms.any (fun tk => tk.2 == some e.key) ||
+    (match ownerOf f kr.2 with
+     | some o => o.con.bounds.isSome && o.axes.all e.axes.contains
+     | none => false))
+
+/-- A domain ancillary that CF-netCDF can hold: the term of exactly one coordinate reference, and
+with bounds only where they can be encoded. -/
+def WFDan (f : MField) (e : Entry) : Prop :=
+  e.con.ctype = .dan →
+    e.con.climatology = false
+    ∧ ((allTerms f).filter (fun tk => tk.2 == some e.key)).length = 1
+    ∧ (e.con.bounds.isSome = true → boundsEncodable f e = true)
+
+instance (f : MField) (e : Entry) : Decidable (WFDan f e) := by unfold WFDan; infer_instance
+
+/-- The fields for which the round trip is proved, stages A and B: as `WFField`, with domain
+ancillaries (`WFDan`) and coordinate references — parametric vertical coordinates (`WFFT`) and grid
+mappings (`WFGM`) — that CF-netCDF can hold.
+
+Excluded, each a finding of `known_findings.json` when `cfdm.write` accepts it: a term without
+domain ancillary, coordinates of a formula-terms reference other than the parametric coordinate, a
+`computed_standard_name` that the coordinate does not carry, a vertical datum that no or several
+grid mappings share (or that differs from the single grid mapping's), the coordinates of a single
+grid mapping other than those CF infers from standard names, bounds of a domain ancillary that the
+bounds `formula_terms` cannot name, a scalar parametric coordinate. -/
+def WFFieldB (f : MField) : Prop :=
+  f.axisKeys.Nodup ∧ (f.cons.map Entry.key).Nodup ∧ f.dataAxes.Nodup ∧ (∀ a ∈ f.dataAxes, a ∈ f.axisKeys)
+  ∧ (∀ e ∈ f.cons, WFEntry f e)
+  ∧ (∀ ka ∈ f.axes, ka.1 ∉ f.dataAxes → ka.2.size = 1 ∧ ka.2.unlimited = false ∧ f.spanning ka.1 ≠ [])
+  ∧ (∀ e ∈ f.cons, WFDan f e)
+  ∧ (∀ kr ∈ f.refs, (kr.2.isFT = true ∨ kr.2.isGM = true) ∧ (kr.2.isFT = true → WFFT f kr.2) ∧ (kr.2.isGM = true → WFGM f kr.2))
+  ∧ (f.refs.map (·.1)).Nodup
+  -- the parametric coordinates of different references are different, and no grid mapping lists one
+  ∧ ((ftOnly f).map (fun kr => kr.2.coords)).Nodup
+  ∧ (∀ g ∈ gmOnly f, ∀ kr ∈ ftOnly f, ∀ k ∈ kr.2.coords, k ∉ g.2.coords)
+
+instance (f : MField) : Decidable (WFFieldB f) := by unfold WFFieldB; infer_instance
+
+/-- At most one grid mapping, or no vertical datum: the case split of the proof (the short form of the
+`grid_mapping` attribute, and the long form without vertical coordinates; the general long form is
+`Lemmas/CodecB3.lean`).  Not a hypothesis of the theorems. -/
+def GMSimple (f : MField) : Prop := (gmOnly f).length ≤ 1 ∨ ∀ kr ∈ ftOnly f, kr.2.datum = []
+
+instance (f : MField) : Decidable (GMSimple f) := by unfold GMSimple; infer_instance
+
+/-- Stage A is the part of stage B without coordinate references and domain ancillaries. -/
+theorem WFField.toB {f : MField} (h : WFField f) : WFFieldB f := by
+  obtain ⟨h1, h2, h3, h4, h5, h6, h7, h8⟩ := h
+  refine ⟨h1, h2, h3, h4, h5, h6, ?_, ?_, ?_, ?_, ?_⟩
+  · intro e he ht; exact absurd ht (h7 e he)
+  · rw [h8]; intro kr hkr; cases hkr
+  · rw [h8]; exact List.nodup_nil
+  · unfold ftOnly; rw [h8]; exact List.nodup_nil
+  · unfold gmOnly; rw [h8]; intro g hg; cases hg
 
 end Cfdm.Codec
